@@ -1,5 +1,5 @@
 (* C16 - Cargo features only add members; they never change the wire format of the rest. *)
-From Ctap Require Import Base Schema Typed WellTyped Inst Tables Limits Extends SerP RoundTripP MonoP LiftP ObEnvRt Deps ObDeps FnShapes Shapes ObShapeRequest ObShapeStrings ObShapeFilters ObShapeResponse.
+From Ctap Require Import Base Schema Typed WellTyped Inst Tables Limits Extends SerP RoundTripP MonoP LiftP ObEnvRt Deps ObDeps FnShapes Shapes ObShapeRequest ObShapeStrings ObShapeFilters ObShapeResponse ObShapeTablesReq ObShapeTablesInfo.
 Local Open Scope string_scope.
 Local Open Scope Z_scope.
 
@@ -110,7 +110,7 @@ Example c16_ex : subset_feats ["large-blobs"] ["get-info-full"; "large-blobs"] =
 Proof. reflexivity. Qed.
 
 (* the third-party crates the model represents by hand are pinned at the versions it was written against *)
-Theorem c16_modelled_dependencies_pinned : deps_hold lock_versions cargo_deps = true.
+Theorem c16_modelled_dependencies_pinned : deps_hold repo_lock_present lock_versions harness_lock_versions cargo_deps = true.
 Proof. exact generated_deps. Qed.
 
 (* further hand-modelled functions this property rests on *)
@@ -122,6 +122,13 @@ Theorem c16_modelled_functions_unchanged_filters : shapes_hold fn_shapes shapes_
 Proof. exact generated_shapes_filters. Qed.
 Theorem c16_modelled_functions_unchanged_response : shapes_hold fn_shapes shapes_response = true.
 Proof. exact generated_shapes_response. Qed.
+
+(* lookup tables, accessors, builders and further generators this property rests on *)
+
+Theorem c16_modelled_functions_unchanged_tables_req : shapes_hold fn_shapes shapes_tables_req = true.
+Proof. exact generated_shapes_tables_req. Qed.
+Theorem c16_modelled_functions_unchanged_tables_info : shapes_hold fn_shapes shapes_tables_info = true.
+Proof. exact generated_shapes_tables_info. Qed.
 
 Eval vm_compute in "ASSUMPTIONS c16_generated_extends". Print Assumptions c16_generated_extends.
 Eval vm_compute in "ASSUMPTIONS c16_spec_extends". Print Assumptions c16_spec_extends.
@@ -139,3 +146,5 @@ Eval vm_compute in "ASSUMPTIONS c16_modelled_functions_unchanged_request". Print
 Eval vm_compute in "ASSUMPTIONS c16_modelled_functions_unchanged_strings". Print Assumptions c16_modelled_functions_unchanged_strings.
 Eval vm_compute in "ASSUMPTIONS c16_modelled_functions_unchanged_filters". Print Assumptions c16_modelled_functions_unchanged_filters.
 Eval vm_compute in "ASSUMPTIONS c16_modelled_functions_unchanged_response". Print Assumptions c16_modelled_functions_unchanged_response.
+Eval vm_compute in "ASSUMPTIONS c16_modelled_functions_unchanged_tables_req". Print Assumptions c16_modelled_functions_unchanged_tables_req.
+Eval vm_compute in "ASSUMPTIONS c16_modelled_functions_unchanged_tables_info". Print Assumptions c16_modelled_functions_unchanged_tables_info.
